@@ -100,8 +100,40 @@ func nilCheckedDownstream(c *chk.Ctx, v ssa.Value, depth int, trail string, alia
 		case *ssa.If:
 		case *ssa.Store:
 			if x.Val == v {
-				if _, isField := x.Addr.(*ssa.FieldAddr); isField {
-					continue // installing into a field: covered by the field's own rules
+				if fa, isField := x.Addr.(*ssa.FieldAddr); isField {
+					fv := ir.FieldVar(fa)
+					if fv == c.M.SCh || fv == c.M.CCh {
+						continue // installing into the owner's channel field: covered by the field's own rules
+					}
+					// kept in a field of some other record (a batch runner's state): every read of that
+					// field hands the value on
+					okAll := true
+					var whyNot string
+					for _, g := range c.P.Funcs {
+						ir.Instrs(g, func(i2 ssa.Instruction) {
+							var ld ssa.Value
+							switch y := i2.(type) {
+							case *ssa.UnOp:
+								if fa2, isFA := y.X.(*ssa.FieldAddr); isFA && y.Op == token.MUL && ir.FieldVar(fa2) == fv {
+									ld = y
+								}
+							case *ssa.Field:
+								if st, isSt := y.X.Type().Underlying().(*types.Struct); isSt && y.Field < st.NumFields() && st.Field(y.Field) == fv {
+									ld = y
+								}
+							}
+							if ld == nil {
+								return
+							}
+							if ok, why := nilCheckedDownstream(c, ld, depth+1, trail+" → field "+fv.Name()+" read in "+ir.Name(g)); !ok {
+								okAll, whyNot = false, why
+							}
+						})
+					}
+					if okAll {
+						continue
+					}
+					return false, whyNot
 				}
 				if al, isCell := x.Addr.(*ssa.Alloc); isCell {
 					okAll := true
@@ -287,7 +319,7 @@ func ruleRunCoupled(c *chk.Ctx, owner string) {
 		for _, st := range c.P.FieldStores(fv) {
 			f := st.Parent()
 			fa, _ := st.Addr.(*ssa.FieldAddr)
-			_, fresh := fa.X.(*ssa.Alloc)
+			fresh := fa != nil && freshOwner(c, fa.X)
 			switch {
 			case f == stop || (c.P.InExt(stop, f) && f != start):
 				// (the store may sit in a private helper of the stop function; the facts at the
